@@ -138,6 +138,11 @@ def oracle(ctx):
                       'd0/lookalike.build': '[Build]\nImageTag=localhost/la\nFile=/opt/Containerfile\n'})
         for n, t in rnd.sample(EXTRA, rnd.randint(1, 4)):
             extra['d0/' + n] = t
+        # a file that fails conversion may *name* a unit of the set (a container naming a pod): the pod does not reference it, and a
+        # container that was never generated is no member — the pod's service stays what it was
+        for i, pod in enumerate(n for n in names if n.endswith('.pod')):
+            extra[f'd0/zz-failing-member{i}.container'] = rnd.choice([f'[Container]\nPod={pod}\nExec=true\n', f'[Container]\nImage=localhost/i\nPod={pod}\nBogusKey=1\n',
+                                                                      f'[Container]\nImage=localhost/i\nPod={pod}\nExposeHostPort=notaport\n'])
         # unrelated units whose drop-ins fail to load, one found early and one late in a sorted listing
         for n in ('00-baddrop.container', 'zz-baddrop.container'):
             extra['d0/' + n] = '[Container]\nImage=localhost/baddrop\n'
